@@ -1,4 +1,4 @@
-(* Proofs/Unblind.v — C06: unblinding returns exactly what was blinded, only to the right key.
+(* Proofs/Unblind.v — C06: unblinding returns exactly what was ub_blinded, only to the right key.
    The theorems are about the wrappers of Model/Unblind.v for ANY primitives [P] that satisfy
    the laws stated below as Section hypotheses (ECDH symmetry, canonical generator /
    commitment serialisation, H(a)+0*G = H(a), range-proof rewind completeness and
@@ -8,12 +8,12 @@ From GE Require Import Lib.Bytes Lib.Varint Lib.Sha256 Model.Tx Model.Unblind.
 Open Scope N_scope.
 
 (* ---------- small list facts ---------- *)
-Lemma fit_length n bs : length (fit n bs) = n.
-Proof. unfold fit. rewrite firstn_length, app_length, repeat_length. lia. Qed.
+Lemma fit_length n bs : length (ub_fit n bs) = n.
+Proof. unfold ub_fit. rewrite firstn_length, app_length, repeat_length. lia. Qed.
 
-Lemma fit_id n bs : length bs = n -> fit n bs = bs.
+Lemma fit_id n bs : length bs = n -> ub_fit n bs = bs.
 Proof.
-  intro Hl. unfold fit. rewrite firstn_app, Hl, Nat.sub_diag. cbn [firstn].
+  intro Hl. unfold ub_fit. rewrite firstn_app, Hl, Nat.sub_diag. cbn [firstn].
   rewrite app_nil_r. rewrite <- Hl. apply firstn_all.
 Qed.
 
@@ -38,7 +38,7 @@ Proof.
     destruct (IH a' Hl Ht) as [H1 H2]. subst. split; reflexivity.
 Qed.
 
-Lemma zero32_length : length zero32 = 32%nat.
+Lemma zero32_length : length ub_zero32 = 32%nat.
 Proof. reflexivity. Qed.
 
 (* ---------- the SHA-256 chaining value is 32 bytes ---------- *)
@@ -68,27 +68,27 @@ Proof.
   - apply digest_of_length. apply compress_length. reflexivity.
 Qed.
 
-Lemma compute_asset_length e a : compute_asset e = Some a -> length a = 32%nat.
+Lemma compute_asset_length e a : ub_compute_asset e = Some a -> length a = 32%nat.
 Proof.
-  unfold compute_asset. destruct (length e =? 32)%nat; [|discriminate].
+  unfold ub_compute_asset. destruct (length e =? 32)%nat; [|discriminate].
   intro H; inversion H; subst. apply midstate256_length.
 Qed.
 
-Lemma compute_token_length e f a : compute_token e f = Some a -> length a = 32%nat.
+Lemma compute_token_length e f a : ub_compute_token e f = Some a -> length a = 32%nat.
 Proof.
-  unfold compute_token. destruct (length e =? 32)%nat; [|discriminate].
+  unfold ub_compute_token. destruct (length e =? 32)%nat; [|discriminate].
   intro H; inversion H; subst. apply midstate256_length.
 Qed.
 
 Lemma calc_asset_hash_length i s a : calc_asset_hash i s = Some a -> length a = 32%nat.
 Proof.
-  unfold calc_asset_hash, obind. destruct (issuance_entropy i s) as [e|]; [|discriminate].
+  unfold calc_asset_hash, ub_obind. destruct (issuance_entropy i s) as [e|]; [|discriminate].
   apply compute_asset_length.
 Qed.
 
 Lemma calc_token_hash_length i s a : calc_token_hash i s = Some a -> length a = 32%nat.
 Proof.
-  unfold calc_token_hash, obind. destruct (issuance_entropy i s) as [e|]; [|discriminate].
+  unfold calc_token_hash, ub_obind. destruct (issuance_entropy i s) as [e|]; [|discriminate].
   apply compute_token_length.
 Qed.
 
@@ -110,7 +110,7 @@ Record laws {G C : Type} (P : prims G C) (pk : bytes -> option bytes) : Prop := 
   law_gen_parse_ser : forall g, p_gen_parse P (p_gen_ser P g) = Some g;
   law_gen_ser_parse : forall b g, p_gen_parse P b = Some g -> p_gen_ser P g = b;
   (* H(a) + 0*G = H(a) *)
-  law_gen_blinded_zero : forall a, p_gen_blinded P a zero32 = p_gen_generate P a;
+  law_gen_blinded_zero : forall a, p_gen_blinded P a ub_zero32 = p_gen_generate P a;
   law_commit_ser_len : forall c, length (p_commit_ser P c) = 33%nat;
   law_commit_parse_ser : forall c, p_commit_parse P (p_commit_ser P c) = Some c;
   law_commit_ser_parse : forall b c, p_commit_parse P b = Some c -> p_commit_ser P c = b;
@@ -122,7 +122,7 @@ Record laws {G C : Type} (P : prims G C) (pk : bytes -> option bytes) : Prop := 
   law_rewind_sign : forall mn c vbf n e mb v msg s g p,
     p_commit P vbf v g = Some c ->
     p_sign P mn c vbf n e mb v msg s g = Some p ->
-    p_rewind P c p n s g = Some (vbf, v, fit 64 msg);
+    p_rewind P c p n s g = Some (vbf, v, ub_fit 64 msg);
   (* ... and with any other commitment, nonce, extra commitment or generator it fails *)
   law_rewind_only : forall mn c vbf n e mb v msg s g p c' n' s' g' r,
     p_sign P mn c vbf n e mb v msg s g = Some p ->
@@ -162,15 +162,15 @@ Let commit_inj := law_commit_inj P pk L.
 
 (* ---------- what a successful unblindOutput went through ---------- *)
 Lemma unblind_output_inv o nonce r :
-  unblind_output P o nonce = r -> r <> RErr ->
+  unblind_output P o nonce = r -> r <> UErr ->
   exists c g vbf v m,
     o_rp o <> [] /\
     p_commit_parse P (o_value o) = Some c /\
     (if (length (o_asset o) =? 33)%nat then p_gen_parse P (o_asset o)
      else p_gen_generate P (o_asset o)) = Some g /\
     p_rewind P c (o_rp o) nonce (o_script o) g = Some (vbf, v, m) /\
-    r = (if (length m <? 32)%nat then RPanic
-         else ROk (mk_unb v (firstn 32 m) vbf (skipn 32 m))).
+    r = (if (length m <? 32)%nat then UPanic
+         else UOk (mk_unb v (firstn 32 m) vbf (skipn 32 m))).
 Proof.
   unfold unblind_output. intros Hr Hne.
   destruct (length (o_rp o) =? 0)%nat eqn:Elen; [congruence|].
@@ -183,12 +183,12 @@ Proof.
   - symmetry. exact Hr.
 Qed.
 
-(* ---------- one honestly blinded amount: what the wrappers hand to the primitives ---------- *)
+(* ---------- one honestly ub_blinded amount: what the wrappers hand to the primitives ---------- *)
 (* [signed_amount value asset abf vbf32 script nonce bl]: bl's commitments are the
    library's commitments to (asset, abf) and (value, vbf) and bl's proof was signed over
-   exactly message = asset || abf, extra commitment = script, that nonce and the blinded
+   exactly message = asset || abf, extra commitment = script, that nonce and the ub_blinded
    generator, whatever minimum value / exponent / bit count were chosen *)
-Definition signed_amount (value : N) (asset abf vbf script nonce : bytes) (bl : blinded) : Prop :=
+Definition signed_amount (value : N) (asset abf vbf script nonce : bytes) (bl : ub_blinded) : Prop :=
   exists g c mn e mb,
     p_gen_blinded P asset abf = Some g /\ bl_asset bl = p_gen_ser P g /\
     p_commit P vbf value g = Some c /\ bl_value bl = p_commit_ser P c /\
@@ -201,7 +201,7 @@ Lemma blind_output_signed value asset abf vbf script bpub epriv exp mb bl :
   nonce_hash P bpub epriv = Some (bl_nonce bl) /\
   signed_amount value asset abf vbf script (bl_nonce bl) bl.
 Proof.
-  unfold blind_output, asset_commitment, value_commitment, range_proof, obind, option_map.
+  unfold blind_output, asset_commitment, value_commitment, range_proof, ub_obind, option_map.
   intros Hlv Hb. rewrite (fit_id 32 vbf Hlv) in Hb.
   destruct (p_gen_blinded P asset abf) as [g|] eqn:Eg; [|discriminate].
   rewrite gen_parse_ser in Hb.
@@ -220,11 +220,11 @@ Qed.
 Lemma blind_issuance_amount_signed value asset vbf key bl :
   length vbf = 32%nat ->
   blind_issuance_amount P value asset vbf key = Some bl ->
-  signed_amount value asset zero32 vbf [] (fit 32 key) bl.
+  signed_amount value asset ub_zero32 vbf [] (ub_fit 32 key) bl.
 Proof.
-  unfold blind_issuance_amount, asset_commitment, value_commitment, range_proof, obind, option_map.
+  unfold blind_issuance_amount, asset_commitment, value_commitment, range_proof, ub_obind, option_map.
   intros Hlv Hb. rewrite (fit_id 32 vbf Hlv) in Hb.
-  destruct (p_gen_blinded P asset zero32) as [g|] eqn:Eg; [|discriminate].
+  destruct (p_gen_blinded P asset ub_zero32) as [g|] eqn:Eg; [|discriminate].
   rewrite gen_parse_ser in Hb.
   destruct (p_commit P vbf value g) as [c|] eqn:Ec; [|discriminate].
   cbn [ra_asset ra_abf ra_vcommit ra_vbf ra_nonce ra_value ra_script] in Hb.
@@ -238,7 +238,7 @@ Qed.
 
 (* ---------- core: unblindOutput on an output carrying a signed amount ---------- *)
 Section Signed.
-Variables (value : N) (asset abf vbf script nonce : bytes) (bl : blinded).
+Variables (value : N) (asset abf vbf script nonce : bytes) (bl : ub_blinded).
 Hypothesis Hasset : length asset = 32%nat.
 Hypothesis Habf : length abf = 32%nat.
 Hypothesis Hsigned : signed_amount value asset abf vbf script nonce bl.
@@ -246,7 +246,7 @@ Hypothesis Hsigned : signed_amount value asset abf vbf script nonce bl.
 Let u0 := mk_unb value asset vbf abf.
 
 Lemma msg_facts :
-  fit 64 (asset ++ abf) = asset ++ abf /\ (length (asset ++ abf) <? 32)%nat = false /\
+  ub_fit 64 (asset ++ abf) = asset ++ abf /\ (length (asset ++ abf) <? 32)%nat = false /\
   firstn 32 (asset ++ abf) = asset /\ skipn 32 (asset ++ abf) = abf.
 Proof.
   repeat split.
@@ -260,7 +260,7 @@ Qed.
 Lemma unblind_output_signed o :
   o_asset o = bl_asset bl -> o_value o = bl_value bl -> o_script o = script ->
   o_rp o = bl_proof bl ->
-  unblind_output P o nonce = ROk u0.
+  unblind_output P o nonce = UOk u0.
 Proof.
   intros Ha Hv Hs Hp.
   destruct Hsigned as (g & c & mn & e & mb & Eg & Eba & Ec & Ebv & En & Esig).
@@ -276,10 +276,10 @@ Qed.
 
 (* the same amount presented with the raw 32-byte asset id (issuances: zero asset blinder) *)
 Lemma unblind_output_signed_raw o :
-  abf = zero32 ->
+  abf = ub_zero32 ->
   o_asset o = asset -> o_value o = bl_value bl -> o_script o = script ->
   o_rp o = bl_proof bl ->
-  unblind_output P o nonce = ROk u0.
+  unblind_output P o nonce = UOk u0.
 Proof.
   intros Hz Ha Hv Hs Hp.
   destruct Hsigned as (g & c & mn & e & mb & Eg & Eba & Ec & Ebv & En & Esig).
@@ -299,8 +299,8 @@ Qed.
    yields exactly the original amounts *)
 Lemma carrier_only_original o nonce' r :
   o_rp o = bl_proof bl ->
-  unblind_output P o nonce' = r -> r <> RErr ->
-  r = ROk u0 /\ nonce' = nonce /\ o_script o = script /\ o_value o = bl_value bl /\
+  unblind_output P o nonce' = r -> r <> UErr ->
+  r = UOk u0 /\ nonce' = nonce /\ o_script o = script /\ o_value o = bl_value bl /\
   ((length (o_asset o) = 33)%nat -> o_asset o = bl_asset bl).
 Proof.
   intros Hp Hr Hne.
@@ -319,7 +319,7 @@ Proof.
 Qed.
 
 Lemma carrier_wrong_nonce_fails o nonce' :
-  o_rp o = bl_proof bl -> nonce' <> nonce -> unblind_output P o nonce' = RErr.
+  o_rp o = bl_proof bl -> nonce' <> nonce -> unblind_output P o nonce' = UErr.
 Proof.
   intros Hp Hn.
   destruct (unblind_output P o nonce') as [u| |] eqn:Er; [exfalso|reflexivity|exfalso].
@@ -328,7 +328,7 @@ Proof.
 Qed.
 
 Lemma carrier_wrong_script_fails o nonce' :
-  o_rp o = bl_proof bl -> o_script o <> script -> unblind_output P o nonce' = RErr.
+  o_rp o = bl_proof bl -> o_script o <> script -> unblind_output P o nonce' = UErr.
 Proof.
   intros Hp Hs.
   destruct (unblind_output P o nonce') as [u| |] eqn:Er; [exfalso|reflexivity|exfalso].
@@ -337,7 +337,7 @@ Proof.
 Qed.
 
 Lemma carrier_wrong_value_commitment_fails o nonce' :
-  o_rp o = bl_proof bl -> o_value o <> bl_value bl -> unblind_output P o nonce' = RErr.
+  o_rp o = bl_proof bl -> o_value o <> bl_value bl -> unblind_output P o nonce' = UErr.
 Proof.
   intros Hp Hv.
   destruct (unblind_output P o nonce') as [u| |] eqn:Er; [exfalso|reflexivity|exfalso].
@@ -347,7 +347,7 @@ Qed.
 
 Lemma carrier_wrong_asset_commitment_fails o nonce' :
   o_rp o = bl_proof bl -> length (o_asset o) = 33%nat -> o_asset o <> bl_asset bl ->
-  unblind_output P o nonce' = RErr.
+  unblind_output P o nonce' = UErr.
 Proof.
   intros Hp Hl Ha.
   destruct (unblind_output P o nonce') as [u| |] eqn:Er; [exfalso|reflexivity|exfalso].
@@ -359,7 +359,7 @@ Qed.
    commitments) still unblinds, the value and its blinding factor are the original ones *)
 Lemma any_proof_same_value o nonce' u :
   o_asset o = bl_asset bl -> o_value o = bl_value bl ->
-  unblind_output P o nonce' = ROk u -> u_value u = value /\ u_vbf u = vbf.
+  unblind_output P o nonce' = UOk u -> u_value u = value /\ u_vbf u = vbf.
 Proof.
   intros Ha Hv Hr.
   destruct Hsigned as (g & c & mn & e & mb & Eg & Eba & Ec & Ebv & En & Esig).
@@ -380,7 +380,7 @@ Lemma signed_recreates :
   value_commitment P (u_value u0) (bl_asset bl) (u_vbf u0) = Some (bl_value bl).
 Proof.
   destruct Hsigned as (g & c & mn & e & mb & Eg & Eba & Ec & Ebv & En & Esig).
-  unfold asset_commitment, value_commitment, obind, option_map, u0. cbn [u_asset u_abf u_value u_vbf].
+  unfold asset_commitment, value_commitment, ub_obind, option_map, u0. cbn [u_asset u_abf u_value u_vbf].
   rewrite Eg, Eba, gen_parse_ser, Ec, Ebv. split; reflexivity.
 Qed.
 
@@ -397,7 +397,7 @@ End Signed.
 (* ================================================================== *)
 (* Outputs: BlindOutputs then UnblindOutputWithKey / UnblindOutputWithNonce *)
 Section Outputs.
-Variables (value : N) (asset abf vbf script rsk esk R E sp : bytes) (exp mb : Z) (bl : blinded).
+Variables (value : N) (asset abf vbf script rsk esk R E sp : bytes) (exp mb : Z) (bl : ub_blinded).
 Hypothesis Hasset : length asset = 32%nat.
 Hypothesis Habf : length abf = 32%nat.
 Hypothesis Hvbf : length vbf = 32%nat.
@@ -426,7 +426,7 @@ Proof.
   inversion Hn as [Hn']. apply hash_len.
 Qed.
 
-Theorem unblind_blind_key : unblind_with_key P out rsk = ROk u0.
+Theorem unblind_blind_key : unblind_with_key P out rsk = UOk u0.
 Proof.
   destruct (blind_output_signed _ _ _ _ _ _ _ _ _ _ Hvbf Hblind) as (_ & Hs).
   unfold unblind_with_key, out, out_of_blinded. rewrite out_conf. cbn [negb o_nonce].
@@ -434,7 +434,7 @@ Proof.
   apply (unblind_output_signed value asset abf vbf script (bl_nonce bl) bl Hasset Habf Hs); reflexivity.
 Qed.
 
-Theorem unblind_blind_nonce : unblind_with_nonce P out (bl_nonce bl) = ROk u0.
+Theorem unblind_blind_nonce : unblind_with_nonce P out (bl_nonce bl) = UOk u0.
 Proof.
   destruct (blind_output_signed _ _ _ _ _ _ _ _ _ _ Hvbf Hblind) as (_ & Hs).
   unfold unblind_with_nonce, out, out_of_blinded. rewrite out_conf. cbn [negb].
@@ -443,7 +443,7 @@ Proof.
 Qed.
 
 Theorem revealed_recreates_commitments : forall u,
-  unblind_with_key P out rsk = ROk u ->
+  unblind_with_key P out rsk = UOk u ->
   u = u0 /\
   asset_commitment P (u_asset u) (u_abf u) = Some (o_asset out) /\
   value_commitment P (u_value u) (o_asset out) (u_vbf u) = Some (o_value out).
@@ -462,7 +462,7 @@ Qed.
 
 (* a key whose ECDH nonce is not the blinder's nonce fails (never other amounts, never a panic) *)
 Theorem wrong_nonce_fails : forall k,
-  nonce_hash P E k <> Some (bl_nonce bl) -> unblind_with_key P out k = RErr.
+  nonce_hash P E k <> Some (bl_nonce bl) -> unblind_with_key P out k = UErr.
 Proof.
   intros k Hk.
   destruct (blind_output_signed _ _ _ _ _ _ _ _ _ _ Hvbf Hblind) as (_ & Hs).
@@ -473,7 +473,7 @@ Proof.
 Qed.
 
 (* ... in particular every private key other than the recipient's *)
-Theorem wrong_key_fails : forall k, k <> rsk -> unblind_with_key P out k = RErr.
+Theorem wrong_key_fails : forall k, k <> rsk -> unblind_with_key P out k = UErr.
 Proof.
   intros k Hk. apply wrong_nonce_fails. intro Hn.
   pose proof recipient_nonce as Hr. unfold nonce_hash, option_map in Hn, Hr.
@@ -484,7 +484,7 @@ Proof.
 Qed.
 
 Theorem wrong_nonce_fails_with_nonce : forall n,
-  fit 32 n <> bl_nonce bl -> unblind_with_nonce P out n = RErr.
+  ub_fit 32 n <> bl_nonce bl -> unblind_with_nonce P out n = UErr.
 Proof.
   intros n Hn.
   destruct (blind_output_signed _ _ _ _ _ _ _ _ _ _ Hvbf Hblind) as (_ & Hs).
@@ -496,7 +496,7 @@ Qed.
 Theorem tampered_script_fails : forall script' sp' k n,
   script' <> script ->
   let o' := mk_out (bl_asset bl) (bl_value bl) script' E (bl_proof bl) sp' in
-  unblind_with_key P o' k = RErr /\ unblind_with_nonce P o' n = RErr.
+  unblind_with_key P o' k = UErr /\ unblind_with_nonce P o' n = UErr.
 Proof.
   intros script' sp' k n Hne o'.
   destruct (blind_output_signed _ _ _ _ _ _ _ _ _ _ Hvbf Hblind) as (_ & Hs).
@@ -510,7 +510,7 @@ Qed.
 Theorem tampered_value_commitment_fails : forall vc' sp' k n,
   vc' <> bl_value bl ->
   let o' := mk_out (bl_asset bl) vc' script E (bl_proof bl) sp' in
-  unblind_with_key P o' k = RErr /\ unblind_with_nonce P o' n = RErr.
+  unblind_with_key P o' k = UErr /\ unblind_with_nonce P o' n = UErr.
 Proof.
   intros vc' sp' k n Hne o'.
   destruct (blind_output_signed _ _ _ _ _ _ _ _ _ _ Hvbf Hblind) as (_ & Hs).
@@ -524,7 +524,7 @@ Qed.
 Theorem tampered_asset_commitment_fails : forall ac' sp' k n,
   length ac' = 33%nat -> ac' <> bl_asset bl ->
   let o' := mk_out ac' (bl_value bl) script E (bl_proof bl) sp' in
-  unblind_with_key P o' k = RErr /\ unblind_with_nonce P o' n = RErr.
+  unblind_with_key P o' k = UErr /\ unblind_with_nonce P o' n = UErr.
 Proof.
   intros ac' sp' k n Hl Hne o'.
   destruct (blind_output_signed _ _ _ _ _ _ _ _ _ _ Hvbf Hblind) as (_ & Hs).
@@ -539,7 +539,7 @@ Qed.
    and is confidential either fails or returns exactly the original amounts *)
 Theorem never_other_amounts : forall o' k u,
   o_rp o' = bl_proof bl -> is_conf_out o' = true ->
-  unblind_with_key P o' k = ROk u -> u = u0.
+  unblind_with_key P o' k = UOk u -> u = u0.
 Proof.
   intros o' k u Hp Hc Hu.
   destruct (blind_output_signed _ _ _ _ _ _ _ _ _ _ Hvbf Hblind) as (_ & Hs).
@@ -552,7 +552,7 @@ Qed.
 
 (* and whatever replaces the proof itself, a result still carries the committed value *)
 Theorem tampered_proof_never_other_value : forall p' sp' k u,
-  unblind_with_key P (mk_out (bl_asset bl) (bl_value bl) script E p' sp') k = ROk u ->
+  unblind_with_key P (mk_out (bl_asset bl) (bl_value bl) script E p' sp') k = UOk u ->
   u_value u = value /\ u_vbf u = vbf.
 Proof.
   intros p' sp' k u Hu.
@@ -568,7 +568,7 @@ End Outputs.
 (* Issuances: BlindIssuances then UnblindIssuance *)
 Section Issuances.
 Variables (i : txin) (s : issuance).
-Variables (aid : bytes) (va : N) (vbfa ka : bytes) (ba : blinded).
+Variables (aid : bytes) (va : N) (vbfa ka : bytes) (ba : ub_blinded).
 Hypothesis Hiss : in_iss i = Some s.
 Hypothesis Haid : calc_asset_hash i s = Some aid.
 Hypothesis Hvbfa : length vbfa = 32%nat.
@@ -576,31 +576,31 @@ Hypothesis Hba : blind_issuance_amount P va aid vbfa ka = Some ba.
 Hypothesis Hamount : iss_amount s = bl_value ba.
 Hypothesis Hirp : in_irp i = bl_proof ba.
 
-Let ua := mk_unb va aid vbfa zero32.
+Let ua := mk_unb va aid vbfa ub_zero32.
 
 Lemma issuance_amount_roundtrip : forall asset value vbf key b o,
   length asset = 32%nat -> length vbf = 32%nat ->
   blind_issuance_amount P value asset vbf key = Some b ->
   o_asset o = asset -> o_value o = bl_value b -> o_script o = [] -> o_rp o = bl_proof b ->
-  unblind_issuance_amount P o key = ROk (mk_unb value asset vbf zero32).
+  unblind_issuance_amount P o key = UOk (mk_unb value asset vbf ub_zero32).
 Proof.
   intros asset value vbf key b o Hla Hlv Hb Ha Hv Hs Hp.
   apply (blind_issuance_amount_signed _ _ _ _ _ Hlv) in Hb.
   unfold unblind_issuance_amount.
-  rewrite (unblind_output_signed_raw value asset zero32 vbf [] (fit 32 key) b Hla zero32_length Hb o eq_refl Ha Hv Hs Hp).
+  rewrite (unblind_output_signed_raw value asset ub_zero32 vbf [] (ub_fit 32 key) b Hla zero32_length Hb o eq_refl Ha Hv Hs Hp).
   cbn [u_value u_vbf]. rewrite Ha. reflexivity.
 Qed.
 
 Lemma issuance_amount_wrong_key : forall asset value vbf key b o key',
   length asset = 32%nat -> length vbf = 32%nat ->
   blind_issuance_amount P value asset vbf key = Some b ->
-  o_rp o = bl_proof b -> fit 32 key' <> fit 32 key ->
-  unblind_issuance_amount P o key' = RErr.
+  o_rp o = bl_proof b -> ub_fit 32 key' <> ub_fit 32 key ->
+  unblind_issuance_amount P o key' = UErr.
 Proof.
   intros asset value vbf key b o key' Hla Hlv Hb Hp Hk.
   apply (blind_issuance_amount_signed _ _ _ _ _ Hlv) in Hb.
   unfold unblind_issuance_amount.
-  rewrite (carrier_wrong_nonce_fails value asset zero32 vbf [] (fit 32 key) b Hla zero32_length Hb o (fit 32 key') Hp Hk).
+  rewrite (carrier_wrong_nonce_fails value asset ub_zero32 vbf [] (ub_fit 32 key) b Hla zero32_length Hb o (ub_fit 32 key') Hp Hk).
   reflexivity.
 Qed.
 
@@ -608,12 +608,12 @@ Lemma issuance_amount_wrong_commitment : forall asset value vbf key b o key',
   length asset = 32%nat -> length vbf = 32%nat ->
   blind_issuance_amount P value asset vbf key = Some b ->
   o_rp o = bl_proof b -> o_value o <> bl_value b ->
-  unblind_issuance_amount P o key' = RErr.
+  unblind_issuance_amount P o key' = UErr.
 Proof.
   intros asset value vbf key b o key' Hla Hlv Hb Hp Hv.
   apply (blind_issuance_amount_signed _ _ _ _ _ Hlv) in Hb.
   unfold unblind_issuance_amount.
-  rewrite (carrier_wrong_value_commitment_fails value asset zero32 vbf [] (fit 32 key) b Hla zero32_length Hb o (fit 32 key') Hp Hv).
+  rewrite (carrier_wrong_value_commitment_fails value asset ub_zero32 vbf [] (ub_fit 32 key) b Hla zero32_length Hb o (ub_fit 32 key') Hp Hv).
   reflexivity.
 Qed.
 
@@ -621,13 +621,13 @@ Lemma issuance_amount_only_original : forall asset value vbf key b o key' u,
   length asset = 32%nat -> length vbf = 32%nat ->
   blind_issuance_amount P value asset vbf key = Some b ->
   o_rp o = bl_proof b ->
-  unblind_issuance_amount P o key' = ROk u -> u_value u = value /\ u_vbf u = vbf.
+  unblind_issuance_amount P o key' = UOk u -> u_value u = value /\ u_vbf u = vbf.
 Proof.
   intros asset value vbf key b o key' u Hla Hlv Hb Hp Hu.
   apply (blind_issuance_amount_signed _ _ _ _ _ Hlv) in Hb.
   unfold unblind_issuance_amount in Hu.
-  destruct (unblind_output P o (fit 32 key')) as [u'| |] eqn:Er; try discriminate.
-  destruct (carrier_only_original value asset zero32 vbf [] (fit 32 key) b Hla zero32_length Hb o _ _ Hp Er) as (Hr & _);
+  destruct (unblind_output P o (ub_fit 32 key')) as [u'| |] eqn:Er; try discriminate.
+  destruct (carrier_only_original value asset ub_zero32 vbf [] (ub_fit 32 key) b Hla zero32_length Hb o _ _ Hp Er) as (Hr & _);
     [discriminate|].
   inversion Hr; subst u'. inversion Hu; subst u. cbn [u_value u_vbf]. split; reflexivity.
 Qed.
@@ -645,7 +645,7 @@ Qed.
 (* asset amount only (no token amount): any second key *)
 Theorem unblind_issuance_blind_asset_only : forall k1 rest,
   has_token_amount s = false ->
-  unblind_issuance P i (ka :: k1 :: rest) = ROk (ua, None).
+  unblind_issuance P i (ka :: k1 :: rest) = UOk (ua, None).
 Proof.
   intros k1 rest Hnt. unfold unblind_issuance. rewrite Hiss, irp_nonempty, Hnt, Haid. cbn [andb].
   rewrite (issuance_amount_roundtrip aid va vbfa ka ba (mk_out aid (iss_amount s) [] [] (in_irp i) []) aid_len Hvbfa Hba eq_refl Hamount eq_refl Hirp).
@@ -653,14 +653,14 @@ Proof.
 Qed.
 
 Section WithToken.
-Variables (tid : bytes) (vt : N) (vbft kt : bytes) (bt : blinded).
+Variables (tid : bytes) (vt : N) (vbft kt : bytes) (bt : ub_blinded).
 Hypothesis Htid : calc_token_hash i s = Some tid.
 Hypothesis Hvbft : length vbft = 32%nat.
 Hypothesis Hbt : blind_issuance_amount P vt tid vbft kt = Some bt.
 Hypothesis Htoken : iss_token s = bl_value bt.
 Hypothesis Hinrp : in_inrp i = bl_proof bt.
 
-Let ut := mk_unb vt tid vbft zero32.
+Let ut := mk_unb vt tid vbft ub_zero32.
 
 Lemma tid_len : length tid = 32%nat.
 Proof. exact (calc_token_hash_length _ _ _ Htid). Qed.
@@ -679,7 +679,7 @@ Proof.
 Qed.
 
 Theorem unblind_issuance_blind : forall rest,
-  unblind_issuance P i (ka :: kt :: rest) = ROk (ua, Some ut).
+  unblind_issuance P i (ka :: kt :: rest) = UOk (ua, Some ut).
 Proof.
   intro rest. unfold unblind_issuance.
   rewrite Hiss, irp_nonempty, has_token, inrp_nonempty, Haid, Htid. cbn [andb].
@@ -689,7 +689,7 @@ Proof.
 Qed.
 
 Theorem issuance_wrong_token_key_fails : forall k1 rest,
-  fit 32 k1 <> fit 32 kt -> unblind_issuance P i (ka :: k1 :: rest) = RErr.
+  ub_fit 32 k1 <> ub_fit 32 kt -> unblind_issuance P i (ka :: k1 :: rest) = UErr.
 Proof.
   intros k1 rest Hk. unfold unblind_issuance.
   rewrite Hiss, irp_nonempty, has_token, inrp_nonempty, Haid, Htid. cbn [andb].
@@ -702,7 +702,7 @@ End WithToken.
 
 (* wrong asset key: fails whatever the token part is *)
 Theorem issuance_wrong_asset_key_fails : forall k0 keys,
-  fit 32 k0 <> fit 32 ka -> unblind_issuance P i (k0 :: keys) = RErr.
+  ub_fit 32 k0 <> ub_fit 32 ka -> unblind_issuance P i (k0 :: keys) = UErr.
 Proof.
   intros k0 keys Hk. unfold unblind_issuance.
   destruct keys as [|k1 rest]; [reflexivity|].
@@ -716,7 +716,7 @@ Qed.
 (* altered amount commitment: fails for every key list *)
 Theorem issuance_tampered_amount_fails : forall i' s' keys,
   in_iss i' = Some s' -> in_irp i' = bl_proof ba -> iss_amount s' <> bl_value ba ->
-  unblind_issuance P i' keys = RErr.
+  unblind_issuance P i' keys = UErr.
 Proof.
   intros i' s' keys Hi' Hp Hne. unfold unblind_issuance.
   destruct keys as [|k0 [|k1 rest]]; try reflexivity.
@@ -735,7 +735,7 @@ Theorem issuance_recreates_commitment :
   value_commitment P (u_value ua) (bl_asset ba) (u_vbf ua) = Some (iss_amount s).
 Proof.
   rewrite Hamount.
-  exact (signed_recreates va aid zero32 vbfa [] (fit 32 ka) ba (blind_issuance_amount_signed _ _ _ _ _ Hvbfa Hba)).
+  exact (signed_recreates va aid ub_zero32 vbfa [] (ub_fit 32 ka) ba (blind_issuance_amount_signed _ _ _ _ _ Hvbfa Hba)).
 Qed.
 
 End Issuances.
@@ -746,7 +746,7 @@ Theorem issuance_never_other_amount : forall aid va vbfa ka ba i' keys ua' ut',
   length aid = 32%nat -> length vbfa = 32%nat ->
   blind_issuance_amount P va aid vbfa ka = Some ba ->
   in_irp i' = bl_proof ba ->
-  unblind_issuance P i' keys = ROk (ua', ut') -> u_value ua' = va /\ u_vbf ua' = vbfa.
+  unblind_issuance P i' keys = UOk (ua', ut') -> u_value ua' = va /\ u_vbf ua' = vbfa.
 Proof.
   intros aid va vbfa ka ba i' keys ua' ut' Hla Hlv Hba Hp Hu.
   unfold unblind_issuance in Hu.
@@ -775,8 +775,8 @@ Qed.
 Theorem unblind_explicit_output : forall a s n sp k value,
   (length n <= 1)%nat -> (value < two64) ->
   let o := mk_out (b8 1 :: a) (b8 1 :: be_enc 8 value) s n [] sp in
-  unblind_with_key P o k = ROk (mk_unb value a zero32 zero32) /\
-  unblind_with_nonce P o k = ROk (mk_unb value a zero32 zero32).
+  unblind_with_key P o k = UOk (mk_unb value a ub_zero32 ub_zero32) /\
+  unblind_with_nonce P o k = UOk (mk_unb value a ub_zero32 ub_zero32).
 Proof.
   intros a s n sp k value Hn Hv o.
   assert (Hc : is_conf_out o = false).
@@ -798,7 +798,7 @@ End Laws.
    primitives that satisfies every law.  Generators and commitments are 32-byte strings
    behind a one-byte prefix, a range proof is the record of what was signed, rewind
    compares.  Pedersen binding holds on the instance's domain because it only commits
-   with blinding factors whose last 8 bytes are zero (24 + 8 bytes fit in 32). *)
+   with blinding factors whose last 8 bytes are zero (24 + 8 bytes ub_fit in 32). *)
 Definition b32 : Type := { b : bytes | (length b =? 32)%nat = true }.
 
 Lemma b32_eq (x y : b32) : proj1_sig x = proj1_sig y -> x = y.
@@ -807,10 +807,10 @@ Proof.
   apply (Eqdep_dec.UIP_dec Bool.bool_dec).
 Qed.
 
-Lemma fit32_ok b : (length (fit 32 b) =? 32)%nat = true.
+Lemma fit32_ok b : (length (ub_fit 32 b) =? 32)%nat = true.
 Proof. rewrite fit_length. reflexivity. Qed.
 
-Definition mk_b32 (b : bytes) : b32 := exist _ (fit 32 b) (fit32_ok b).
+Definition mk_b32 (b : bytes) : b32 := exist _ (ub_fit 32 b) (fit32_ok b).
 
 Definition parse_b32 (p q : N) (b : bytes) : option b32 :=
   match b with
@@ -860,7 +860,7 @@ Definition toy_ecdh (pub priv : bytes) : option bytes :=
   end.
 
 Definition toy_gen_blinded (a b : bytes) : option b32 :=
-  if bytes_eqb b zero32 then Some (mk_b32 a) else Some (mk_b32 (b ++ a)).
+  if bytes_eqb b ub_zero32 then Some (mk_b32 a) else Some (mk_b32 (b ++ a)).
 
 Definition zero8 : bytes := repeat x00 8.
 Definition toy_commit (vbf : bytes) (v : N) (g : b32) : option b32 :=
@@ -891,7 +891,7 @@ Definition toy_rewind (c : b32) (p n s : bytes) (g : b32) : option (bytes * N * 
   | Some (c0, n0, g0, vbf, vb, msg, s0) =>
       if bytes_eqb c0 (ser_b32 8 c) && bytes_eqb n0 n && bytes_eqb g0 (ser_b32 10 g) &&
          bytes_eqb s0 s && toy_commit_is vbf (le_dec vb) g c
-      then Some (vbf, le_dec vb, fit 64 msg) else None
+      then Some (vbf, le_dec vb, ub_fit 64 msg) else None
   | None => None
   end.
 
@@ -905,7 +905,7 @@ Definition toy_verify (c : b32) (p s : bytes) (g : b32) : bool :=
 
 Definition toy : prims b32 b32 :=
   mk_prims b32 b32
-    (fit 32) toy_ecdh
+    (ub_fit 32) toy_ecdh
     (parse_b32 10 10) (ser_b32 10) (fun a => Some (mk_b32 a)) toy_gen_blinded
     (parse_b32 8 8) (ser_b32 8) toy_commit
     toy_sign toy_rewind toy_verify.
@@ -1010,7 +1010,7 @@ Proof.
     destruct ((length vbf =? 32)%nat && bytes_eqb (skipn 24 vbf) zero8 && (v <? two64)) eqn:E1; [|discriminate].
     destruct ((length vbf' =? 32)%nat && bytes_eqb (skipn 24 vbf') zero8 && (v' <? two64)) eqn:E2; [|discriminate].
     intros H1 H2. rewrite <- H2 in H1.
-    assert (Hf : fit 32 (firstn 24 vbf ++ le_enc 8 v) = fit 32 (firstn 24 vbf' ++ le_enc 8 v')).
+    assert (Hf : ub_fit 32 (firstn 24 vbf ++ le_enc 8 v) = ub_fit 32 (firstn 24 vbf' ++ le_enc 8 v')).
     { apply (f_equal (fun o : option b32 => match o with Some c1 => proj1_sig c1 | None => [] end)) in H1. exact H1. }
     clear H1 H2.
     apply andb_true_iff in E1 as [E1 Hv]. apply andb_true_iff in E1 as [Hl Hz].
@@ -1038,8 +1038,8 @@ Definition ex_rsk : bytes := repeat x07 16.
 Definition ex_esk : bytes := repeat x09 16.
 Definition ex_R : bytes := b8 2 :: ex_rsk.
 Definition ex_E : bytes := b8 2 :: ex_esk.
-Definition dummy_bl : blinded := mk_bl [] [] [] [].
-Definition ex_bl : blinded :=
+Definition dummy_bl : ub_blinded := mk_bl [] [] [] [].
+Definition ex_bl : ub_blinded :=
   match blind_output toy 1000 ex_asset ex_abf ex_vbf ex_script ex_R ex_esk 0 52 with
   | Some b => b | None => dummy_bl end.
 
@@ -1048,22 +1048,22 @@ Example ex_output_hypotheses :
   toy_pk ex_rsk = Some ex_R /\ toy_pk ex_esk = Some ex_E /\
   blind_output toy 1000 ex_asset ex_abf ex_vbf ex_script ex_R ex_esk 0 52 = Some ex_bl /\
   unblind_with_key toy (out_of_blinded ex_bl ex_script ex_E []) ex_rsk =
-    ROk (mk_unb 1000 ex_asset ex_vbf ex_abf) /\
-  unblind_with_key toy (out_of_blinded ex_bl ex_script ex_E []) ex_esk = RErr /\
-  unblind_with_key toy (out_of_blinded ex_bl [x00; x14; xab] ex_E []) ex_rsk = RErr.
+    UOk (mk_unb 1000 ex_asset ex_vbf ex_abf) /\
+  unblind_with_key toy (out_of_blinded ex_bl ex_script ex_E []) ex_esk = UErr /\
+  unblind_with_key toy (out_of_blinded ex_bl [x00; x14; xab] ex_E []) ex_rsk = UErr.
 Proof. repeat (apply conj; [vm_compute; reflexivity|]). vm_compute; reflexivity. Qed.
 
 Definition ex_ka : bytes := repeat x41 32.
 Definition ex_kt : bytes := repeat x42 32.
-Definition ex_iss0 : issuance := mk_iss zero32 (repeat x05 32) [x00] [x00].
+Definition ex_iss0 : issuance := mk_iss ub_zero32 (repeat x05 32) [x00] [x00].
 Definition ex_in0 : txin := mk_in (repeat x01 32) 3 0 [] [] false [] (Some ex_iss0) [] [].
 Definition ex_aid : bytes := match calc_asset_hash ex_in0 ex_iss0 with Some a => a | None => [] end.
 Definition ex_tid : bytes := match calc_token_hash ex_in0 ex_iss0 with Some a => a | None => [] end.
-Definition ex_ba : blinded :=
+Definition ex_ba : ub_blinded :=
   match blind_issuance_amount toy 7 ex_aid ex_vbf ex_ka with Some b => b | None => dummy_bl end.
-Definition ex_bt : blinded :=
+Definition ex_bt : ub_blinded :=
   match blind_issuance_amount toy 1 ex_tid ex_vbf ex_kt with Some b => b | None => dummy_bl end.
-Definition ex_iss : issuance := mk_iss zero32 (repeat x05 32) (bl_value ex_ba) (bl_value ex_bt).
+Definition ex_iss : issuance := mk_iss ub_zero32 (repeat x05 32) (bl_value ex_ba) (bl_value ex_bt).
 Definition ex_in : txin :=
   mk_in (repeat x01 32) 3 0 [] [] false [] (Some ex_iss) (bl_proof ex_ba) (bl_proof ex_bt).
 
@@ -1075,14 +1075,14 @@ Example ex_issuance_hypotheses :
   iss_amount ex_iss = bl_value ex_ba /\ in_irp ex_in = bl_proof ex_ba /\
   iss_token ex_iss = bl_value ex_bt /\ in_inrp ex_in = bl_proof ex_bt /\
   unblind_issuance toy ex_in [ex_ka; ex_kt] =
-    ROk (mk_unb 7 ex_aid ex_vbf zero32, Some (mk_unb 1 ex_tid ex_vbf zero32)) /\
-  unblind_issuance toy ex_in [ex_kt; ex_kt] = RErr.
+    UOk (mk_unb 7 ex_aid ex_vbf ub_zero32, Some (mk_unb 1 ex_tid ex_vbf ub_zero32)) /\
+  unblind_issuance toy ex_in [ex_kt; ex_kt] = UErr.
 Proof. repeat (apply conj; [vm_compute; reflexivity|]). vm_compute; reflexivity. Qed.
 
 (* the theorems apply to the instance *)
 Example ex_theorem_applies :
   unblind_with_key toy (out_of_blinded ex_bl ex_script ex_E []) ex_rsk =
-    ROk (mk_unb 1000 ex_asset ex_vbf ex_abf).
+    UOk (mk_unb 1000 ex_asset ex_vbf ex_abf).
 Proof.
   destruct ex_output_hypotheses as (H1 & H2 & H3 & H4 & H5 & H6 & _).
   exact (unblind_blind_key toy toy_pk toy_laws 1000 ex_asset ex_abf ex_vbf ex_script ex_rsk ex_esk
@@ -1093,29 +1093,29 @@ Qed.
 Section Exported.
 Context {G C : Type} (P : prims G C) (pk : bytes -> option bytes) (L : laws P pk).
 
-(* an output blinded by the library for recipient key pair (rsk, R) with ephemeral pair (esk, E) *)
-Definition blinded_for (value : N) (asset abf vbf script rsk esk R E : bytes) (exp mb : Z) (bl : blinded) : Prop :=
+(* an output ub_blinded by the library for recipient key pair (rsk, R) with ephemeral pair (esk, E) *)
+Definition blinded_for (value : N) (asset abf vbf script rsk esk R E : bytes) (exp mb : Z) (bl : ub_blinded) : Prop :=
   length asset = 32%nat /\ length abf = 32%nat /\ length vbf = 32%nat /\
   pk rsk = Some R /\ pk esk = Some E /\
   blind_output P value asset abf vbf script R esk exp mb = Some bl.
 
-Variables (value : N) (asset abf vbf script rsk esk R E : bytes) (exp mb : Z) (bl : blinded).
+Variables (value : N) (asset abf vbf script rsk esk R E : bytes) (exp mb : Z) (bl : ub_blinded).
 Hypothesis B : blinded_for value asset abf vbf script rsk esk R E exp mb bl.
 
 Let u0 := mk_unb value asset vbf abf.
 
 Theorem x_unblind_blind_key : forall sp,
-  unblind_with_key P (out_of_blinded bl script E sp) rsk = ROk u0.
+  unblind_with_key P (out_of_blinded bl script E sp) rsk = UOk u0.
 Proof. destruct B as (H1 & H2 & H3 & H4 & H5 & H6). intro sp.
   eapply unblind_blind_key with (asset := asset) (abf := abf) (vbf := vbf) (esk := esk) (R := R) (E := E); eassumption. Qed.
 
 Theorem x_unblind_blind_nonce : forall sp,
-  unblind_with_nonce P (out_of_blinded bl script E sp) (bl_nonce bl) = ROk u0.
+  unblind_with_nonce P (out_of_blinded bl script E sp) (bl_nonce bl) = UOk u0.
 Proof. destruct B as (H1 & H2 & H3 & H4 & H5 & H6). intro sp.
   eapply unblind_blind_nonce with (asset := asset) (abf := abf) (vbf := vbf) (esk := esk) (R := R) (E := E); eassumption. Qed.
 
 Theorem x_revealed_recreates_commitments : forall sp u,
-  unblind_with_key P (out_of_blinded bl script E sp) rsk = ROk u ->
+  unblind_with_key P (out_of_blinded bl script E sp) rsk = UOk u ->
   u = u0 /\
   asset_commitment P (u_asset u) (u_abf u) = Some (bl_asset bl) /\
   value_commitment P (u_value u) (bl_asset bl) (u_vbf u) = Some (bl_value bl).
@@ -1132,19 +1132,19 @@ Proof.
 Qed.
 
 Theorem x_wrong_key_fails : forall sp k,
-  k <> rsk -> unblind_with_key P (out_of_blinded bl script E sp) k = RErr.
+  k <> rsk -> unblind_with_key P (out_of_blinded bl script E sp) k = UErr.
 Proof. destruct B as (H1 & H2 & H3 & H4 & H5 & H6). intros sp k Hk.
   eapply wrong_key_fails with (asset := asset) (abf := abf) (vbf := vbf) (rsk := rsk) (esk := esk) (R := R) (E := E); eassumption. Qed.
 
 Theorem x_wrong_nonce_fails : forall sp n,
-  fit 32 n <> bl_nonce bl -> unblind_with_nonce P (out_of_blinded bl script E sp) n = RErr.
+  ub_fit 32 n <> bl_nonce bl -> unblind_with_nonce P (out_of_blinded bl script E sp) n = UErr.
 Proof. destruct B as (H1 & H2 & H3 & H4 & H5 & H6). intros sp n Hn.
   eapply wrong_nonce_fails_with_nonce with (asset := asset) (abf := abf) (vbf := vbf) (esk := esk) (R := R) (E := E); eassumption. Qed.
 
 Theorem x_tampered_script_fails : forall script' sp k n,
   script' <> script ->
   let o' := mk_out (bl_asset bl) (bl_value bl) script' E (bl_proof bl) sp in
-  unblind_with_key P o' k = RErr /\ unblind_with_nonce P o' n = RErr.
+  unblind_with_key P o' k = UErr /\ unblind_with_nonce P o' n = UErr.
 Proof.
   destruct B as (H1 & H2 & H3 & H4 & H5 & H6). intros script' sp k n Hne.
   eapply tampered_script_fails with (asset := asset) (abf := abf) (vbf := vbf) (esk := esk) (R := R) (E := E); eassumption.
@@ -1153,7 +1153,7 @@ Qed.
 Theorem x_tampered_value_commitment_fails : forall vc' sp k n,
   vc' <> bl_value bl ->
   let o' := mk_out (bl_asset bl) vc' script E (bl_proof bl) sp in
-  unblind_with_key P o' k = RErr /\ unblind_with_nonce P o' n = RErr.
+  unblind_with_key P o' k = UErr /\ unblind_with_nonce P o' n = UErr.
 Proof.
   destruct B as (H1 & H2 & H3 & H4 & H5 & H6). intros vc' sp k n Hne.
   eapply tampered_value_commitment_fails with (asset := asset) (abf := abf) (vbf := vbf) (esk := esk) (R := R) (E := E); eassumption.
@@ -1162,7 +1162,7 @@ Qed.
 Theorem x_tampered_asset_commitment_fails : forall ac' sp k n,
   length ac' = 33%nat -> ac' <> bl_asset bl ->
   let o' := mk_out ac' (bl_value bl) script E (bl_proof bl) sp in
-  unblind_with_key P o' k = RErr /\ unblind_with_nonce P o' n = RErr.
+  unblind_with_key P o' k = UErr /\ unblind_with_nonce P o' n = UErr.
 Proof.
   destruct B as (H1 & H2 & H3 & H4 & H5 & H6). intros ac' sp k n Hl Hne.
   eapply tampered_asset_commitment_fails with (asset := asset) (abf := abf) (vbf := vbf) (esk := esk) (R := R) (E := E); eassumption.
@@ -1170,12 +1170,12 @@ Qed.
 
 Theorem x_never_other_amounts : forall o' k u,
   o_rp o' = bl_proof bl -> is_conf_out o' = true ->
-  unblind_with_key P o' k = ROk u -> u = u0.
+  unblind_with_key P o' k = UOk u -> u = u0.
 Proof. destruct B as (H1 & H2 & H3 & H4 & H5 & H6). intros o' k u.
   eapply never_other_amounts with (asset := asset) (abf := abf) (vbf := vbf) (esk := esk) (R := R); eassumption. Qed.
 
 Theorem x_tampered_proof_never_other_value : forall p' sp k u,
-  unblind_with_key P (mk_out (bl_asset bl) (bl_value bl) script E p' sp) k = ROk u ->
+  unblind_with_key P (mk_out (bl_asset bl) (bl_value bl) script E p' sp) k = UOk u ->
   u_value u = value /\ u_vbf u = vbf.
 Proof.
   destruct B as (H1 & H2 & H3 & H4 & H5 & H6). intros p' sp k u Hu.
